@@ -19,8 +19,10 @@ CHECKS = {
     "C02": dict(cat="model_checking", ref="5 C02",
                 text="Cursor laws of KV.tla (First/Last/Seek/Next/Prev over the live pairs of a frozen view in [lo,hi)) model-checked; "
                      "every iterator move of seeded walks on DB/snapshot iterators of the real DB (reversals, stepping off both ends, "
-                     "ranges, layouts produced by flushes and compactions) validated by TLC against them.",
-                tech="TLA+ cursor spec + TLC trace validation of iterator walks"),
+                     "ranges, layouts produced by flushes and compactions) validated by TLC against them. DbIter.tla, Merged.tla and "
+                     "Indexed.tla transcribe dbIter, the merging and the two-level iterator and are checked to refine the cursor; every "
+                     "edge of the Merged/Indexed state graphs is replayed on the real NewMergedIterator/NewIndexedIterator.",
+                tech="TLA+ cursor spec + TLC trace validation of iterator walks + state-graph edge cover replayed on the component iterators"),
     "C03": dict(cat="model_checking", ref="5 C03",
                 text="KV.tla action property ViewsFrozen model-checked; real snapshots and iterators are held across writes, flushes and "
                      "compactions and every read through them is validated by TLC against the view frozen at creation.",
@@ -32,7 +34,9 @@ CHECKS = {
                      "storage-operation index x 5 image classes (unsynced tails lost / kept / cut / cut+zeros / cut+garbage), and for a second "
                      "crash at every operation of sampled recoveries, the real DB is reopened on the image and read back; TLC "
                      "(CrashTrace.tla) checks each distinct outcome: opened, contents = a witness set of whole batches in order containing "
-                     "every sync-acknowledged batch; recovered DBs then run a KV-contract program.",
+                     "every sync-acknowledged batch; recovered DBs then run a KV-contract program. FileStore.tla models the real file "
+                     "storage's CURRENT switching under crashes: every post-crash directory TLC reaches is put to the real GetMeta, and the "
+                     "system calls of the real SetMeta (strace) are validated by FileStoreTrace.tla.",
                 tech="TLA+ durability spec + exhaustive crash-point enumeration on the real code judged by TLC"),
     "C05": dict(cat="model_checking", ref="5 C05",
                 text="ReadPath.tla (reader acquisition steps: sequence, buffers, version - against insert/publish, rotation, flush "
@@ -44,9 +48,9 @@ CHECKS = {
                      "publications completed at its call and begun at its return; a client's reads never go back.",
                 tech="TLA+ read-path spec + TLC validation of concurrent histories with publication-bracketing hook events"),
     "C09": dict(cat="model_checking", ref="5 C09",
-                text="Locks.tla (write lock, commit lock, transaction mutex, flush goroutine with command/ack, Close, fault budget) is "
-                     "model-checked: NoLeak, NoStuck and <>(all calls returned) under fairness for the repaired protocol; the three lock "
-                     "leaks as they were coded must be found. Real code: the fault-position enumeration of C08, where a call that has not "
+                text="Locks.tla (write lock, commit lock, transaction mutex, flush and table-compaction goroutines, Close, fault budget, "
+                     "sticky manifest error) is model-checked: NoLeak, NoStuck and <>(all calls returned) under per-process fairness for "
+                     "the repaired protocol; the four lock defects as they were coded must be found. Real code: the fault-position enumeration of C08, where a call that has not "
                      "returned 10 s after the faults stopped is the violation (with goroutine stacks); concurrent histories with Close "
                      "racing the clients, with storage faults, and with both, validated by TLC (ConcTrace.tla): at quiescence nothing is "
                      "pending, a finished call holds neither the write lock nor the commit lock.",
